@@ -17,7 +17,9 @@ import clematis.engine.stages.t1 as T1
 
 EPS = 1e-6
 MULT = {"supports": 1.0, "associates": 0.6, "contradicts": 0.8}
-DECAYS = [{"mode": "exp_floor", "rate": 0.6, "floor": 0.05}, {"mode": "attn_quad", "alpha": 0.8}, {"mode": "exp_floor", "rate": 0.5, "floor": 0.3}, None]
+DECAYS = [{"mode": "exp_floor", "rate": 0.6, "floor": 0.05}, {"mode": "attn_quad", "alpha": 0.8}, {"mode": "exp_floor", "rate": 0.5, "floor": 0.3}, None,
+          # zero-valued and partially specified blocks: a configured 0 is a value, not "unset"
+          {"mode": "exp_floor", "rate": 0.5, "floor": 0.0}, {"mode": "exp_floor", "rate": 0.0, "floor": 0.0}, {"mode": "attn_quad", "alpha": 0.0}, {"mode": "exp_floor"}, {"rate": 0.5}]
 
 
 def _topology(ti, w0, w1, w2):
@@ -31,6 +33,8 @@ def _topology(ti, w0, w1, w2):
         edges = [("e1", "a", "a", w0, "supports"), ("e2", "a", "b", w1, "supports"), ("e3", "b", "c", w2, "supports")]
     elif ti == 3:    # parallel edges + unknown relation
         edges = [("e1", "a", "b", w0, "supports"), ("e2", "a", "b", w1, "weird_rel"), ("e3", "b", "c", w2, "associates")]
+    elif ti == 5:    # hub whose out-edges are NOT contiguous in insertion order (a->b, b->c, a->c)
+        edges = [("e1", "a", "b", w0, "supports"), ("e2", "b", "c", w1, "associates"), ("e3", "a", "c", w2, "supports")]
     else:            # two seeds converge (tag on c makes it a seed as well), diamond
         nodes = [("a", "alpha", []), ("b", "beta", []), ("c", "gamma", ["alpha"]), ("d", "delta", [])]
         edges = [("e1", "a", "b", w0, "supports"), ("e2", "c", "b", w1, "supports"), ("e3", "b", "d", w2, "associates")]
@@ -56,10 +60,10 @@ def _cfg(qb, rc, icl, relax, nb, di, perf=None):
 
 
 def _decay(d, di):
-    dc = DECAYS[di] or {"mode": "exp_floor", "rate": 0.6, "floor": 0.05}
-    if dc["mode"] == "attn_quad":
-        return 1.0 / (1.0 + dc["alpha"] * (d * d))
-    return max(dc["rate"] ** d, dc["floor"])
+    dc = DECAYS[di] or {}
+    if dc.get("mode", "exp_floor") == "attn_quad":
+        return 1.0 / (1.0 + dc.get("alpha", 0.8) * (d * d))
+    return max(dc.get("rate", 0.6) ** d, dc.get("floor", 0.05))
 
 
 def _reference(nodes, edges, text, qb, rc, icl, relax, nb, di):
@@ -219,13 +223,26 @@ def spread_diamond(w0: float, w1: float, w2: float, nb: float, qb: int, rc: int,
     return H.verdict(_spread_body(4, 0, w0, w1, w2, nb, qb, rc, icl))
 
 
+@H.ob(model="realfin", quick=400, thorough=1500, targets=_TARGETS, stubs=_STUBS,
+      bounds=_SPREAD_BOUNDS + "topology: hub a with out-edges a->b and a->c inserted with b->c between them (a source's edges are not contiguous in the store); queue budget 0..3 (thorough 0..5)",
+      split={"qb": ([0, 1, 2, 3, 4, 5] if H.THOROUGH else [0, 1, 2, 3])}, note=_SPREAD_NOTE)
+def spread_hub(w0: float, w1: float, w2: float, nb: float, qb: int, rc: int, icl: int) -> bool:
+    """
+    pre: -2.0 <= w0 <= 2.0 and -2.0 <= w1 <= 2.0 and -2.0 <= w2 <= 2.0 and 0.0 < nb <= 3.0
+    pre: 0 <= qb <= 5 and 0 <= rc <= 3 and 0 <= icl <= 3
+    pre: H.THOROUGH or (rc == 3 or icl == 3)
+    post: _
+    """
+    return H.verdict(_spread_body(5, 0, w0, w1, w2, nb, qb, rc, icl))
+
+
 @H.ob(model="realfin", quick=400, thorough=900, targets=_TARGETS, stubs=_STUBS,
-      bounds="cycle topology, 3 symbolic weights in [-2,2], node budget 1.5, queue budget 0..4, loose radius/layer caps; decay config by symbolic index over {absent, attn_quad, exp_floor with high floor}",
-      split={"di": [1, 2, 3]},
+      bounds="cycle topology, 3 symbolic weights in [-2,2], node budget 1.5, queue budget 0..4, loose radius/layer caps; decay config by index over {absent, attn_quad, exp_floor with high floor, floor 0, rate 0 and floor 0, attn_quad with alpha 0, mode only, rate only}",
+      split={"di": [1, 2, 3, 4, 5, 6, 7, 8]},
       note="C12.a decay modes: an absent t1.decay block behaves as the documented default; attn_quad and floor-dominated decay equal the reference")
 def decay_modes(di: int, w0: float, w1: float, w2: float, qb: int) -> bool:
     """
-    pre: 1 <= di <= 3 and 0 <= qb <= 4
+    pre: 1 <= di <= 8 and 0 <= qb <= 4
     pre: -2.0 <= w0 <= 2.0 and -2.0 <= w1 <= 2.0 and -2.0 <= w2 <= 2.0
     post: _
     """
